@@ -13,6 +13,17 @@ struct EvilIter {
     reported: usize,
     panic_at: Option<usize>,
     calls: usize,
+    /// the iterator's own destructor panics (the last call into caller code of an operation)
+    drop_panics: bool,
+}
+
+impl Drop for EvilIter {
+    fn drop(&mut self) {
+        if self.drop_panics && !std::thread::panicking() {
+            self.drop_panics = false;
+            panic!("injected iterator destructor panic");
+        }
+    }
 }
 
 impl EvilIter {
@@ -152,6 +163,10 @@ pub fn cases(f: &mut dyn FnMut(Value) -> bool) {
                                 if !f(json!({"scenario": "iter", "cap": cap, "op": op, "shape": [c, r], "index": index, "have": have, "rep": rep, "panic_at": k})) {
                                     return;
                                 }
+                            }
+                            // nothing panics until the iterator itself is destroyed
+                            if !f(json!({"scenario": "iter", "cap": cap, "op": op, "shape": [c, r], "index": index, "have": have, "rep": rep, "panic_at": null, "drop_panics": true})) {
+                                return;
                             }
                         }
                     }
@@ -347,6 +362,7 @@ pub fn run(case: &Value) -> Res {
                 reported: ju(&case["rep"]),
                 panic_at: case["panic_at"].as_u64().map(|x| x as usize),
                 calls: 0,
+                drop_panics: case["drop_panics"].as_bool().unwrap_or(false),
             };
             let index = ju(&case["index"]);
             let op = js(&case["op"]);
